@@ -83,11 +83,6 @@ const (
 	numKinds
 )
 
-var kindNames = [...]string{"SenderReport", "ReceiverReport", "SourceDescription", "Goodbye", "ApplicationDefined",
-	"TransportLayerNack", "RapidResynchronizationRequest", "TransportLayerCC", "CCFeedbackReport",
-	"PictureLossIndication", "SliceLossIndication", "ReceiverEstimatedMaximumBitrate", "FullIntraRequest",
-	"ExtendedReport", "RawPacket", "CompoundPacket"}
-
 // size classes
 const (
 	szMin = iota
